@@ -1,15 +1,19 @@
 //! rws-sim: deterministic simulation with fault injection for rws. See /verif/DESIGN.md.
 
 mod evidence;
+mod fsmon;
 mod gen;
+mod model;
 mod oracle;
 mod outcome;
 mod rt;
 mod runner;
 mod scenario;
 mod shrink;
+mod solo;
 mod tree;
 mod util;
+mod wire;
 mod world;
 
 use gen::{Budget, Tier};
